@@ -676,6 +676,8 @@ func (s *Scheme) prepareSigning(ctx context.Context, membership *membership, par
 		panic("Programming error: we shouldn't have gotten to a situation with two concurrent signing with the same topic")
 	}
 
+	verifPoint("sign.handlersRegistered")
+
 	return signingProtocol, signingProtocol.SetShareData(s.StoredData)
 }
 
